@@ -21,7 +21,7 @@ Judge(e) ==
      (IF e.outcome = "ok" /\ c.call = "stream" /\ ~(e.si.rate = c.rate /\ e.si.ch = c.ch /\ e.si.bps = c.bps)
         THEN {"C17: stream-level call silently reinterpreted its arguments: STREAMINFO states rate " \o ToString(e.si.rate)
               \o " channels " \o ToString(e.si.ch) \o " width " \o ToString(e.si.bps) \o " for " \o ToString(c)} ELSE {}) \cup
-     (IF e.outcome = "ok" /\ c.call = "frame" /\ ~(e.fr.num = c.fnum /\ e.fr.n = c.bs /\ e.fr.ch = c.ch)
+     (IF e.outcome = "ok" /\ c.call = "frame" /\ ~(e.fr.num = c.fnum /\ e.fr.n = (IF c.partial /\ c.bs > 16 /\ c.bs <= 65536 THEN c.bs - 5 ELSE c.bs) /\ e.fr.ch = c.ch)
         THEN {"C17: frame-level call silently reinterpreted its arguments: frame states number " \o ToString(e.fr.num)
               \o " block size " \o ToString(e.fr.n) \o " for " \o ToString(c)} ELSE {}) \cup
      (IF e.outcome = "ok" /\ c.call = "fill" /\ v = "ok" /\ e.filled # c.n
